@@ -369,5 +369,89 @@ class SignaturePairs(SubCheck):
 
 from ..fuzz import FuzzCampaign  # noqa: E402
 
-SUBCHECKS = [KeyPairs(), Wrappers(), SignaturePairs()]
+class StackedWrappers(SubCheck):
+    """Memoizing decorators stacked on one cache: inner = memoizer A (name 'inner') around the function, outer = memoizer B
+    (name 'outer') around inner; a second function g is memoized under its own name.  A decorated callable is a function like
+    any other: calls to outer, inner and g in any order return what the plain function returns, and the three never share
+    entries (their __cache_key__ for one call differ, each is prefixed by its own name, __wrapped__ is the callable given)."""
+
+    name = 'stacked_wrappers'
+    KINDS = ['memoize', 'stampede']
+
+    def examples(self, tier):
+        return 60 if tier == 'quick' else 3000
+
+    def strategy(self, tier):
+        @st.composite
+        def case(draw):
+            pool = draw(st.lists(sig_strategy, min_size=1, max_size=4))
+            calls = draw(st.lists(st.tuples(st.sampled_from(['outer', 'inner', 'g', 'outer']), st.integers(0, len(pool) - 1)), min_size=2, max_size=10))
+            return {
+                'holder': draw(st.sampled_from(['cache', 'fanout'])),
+                'inner': draw(st.sampled_from(self.KINDS)),
+                'outer': draw(st.sampled_from(self.KINDS)),
+                'typed': (draw(st.booleans()), draw(st.booleans())),
+                'pool': pool,
+                'calls': calls,
+            }
+
+        return case()
+
+    def execute(self, case, env):
+        import diskcache
+        from diskcache import recipes
+
+        get_seams(env)
+        path = env.scratch.fresh('stack')
+        holder = diskcache.Cache(path) if case['holder'] == 'cache' else diskcache.FanoutCache(path, shards=2)
+        runs = {'f': 0, 'g': 0}
+
+        def f(*args, **kwargs):
+            runs['f'] += 1
+            return ('f',) + echo_result(args, tuple(kwargs.items()), set())
+
+        def g(*args, **kwargs):
+            runs['g'] += 1
+            return ('g',) + echo_result(args, tuple(kwargs.items()), set())
+
+        def deco(kind, name, typed):
+            if kind == 'memoize':
+                return holder.memoize(name=name, typed=typed)
+            return recipes.memoize_stampede(holder, 60, name=name, typed=typed)
+
+        try:
+            inner = deco(case['inner'], 'inner', case['typed'][0])(f)
+            outer = deco(case['outer'], 'outer', case['typed'][1])(inner)
+            gw = deco(case['outer'], 'g', case['typed'][1])(g)
+            fns = {'outer': outer, 'inner': inner, 'g': gw}
+            label = '%s over %s' % (case['outer'], case['inner'])
+            if outer.__wrapped__ is not inner or inner.__wrapped__ is not f:
+                raise Violation('C16/stacked/wrapped-attribute', '%s: __wrapped__ of outer is %r (inner is %r), of inner %r' % (label, outer.__wrapped__, inner, inner.__wrapped__))
+            seen = set()
+            for which, idx in case['calls']:
+                args, kw = case['pool'][idx]
+                args = tuple(args)
+                kw = tuple(tuple(p) for p in kw)
+                keys = {n: fn.__cache_key__(*args, **dict(kw)) for n, fn in fns.items()}
+                for n, k in keys.items():
+                    if k[0] != n:
+                        raise Violation('C16/stacked/key-name', '%s: the cache key of %s for f(*%r, **%r) is %r: not prefixed by its own name' % (label, n, args, dict(kw), k))
+                if len({strict(k) for k in keys.values()}) != 3:
+                    raise Violation('C16/stacked/shared-key', '%s: outer, inner and g do not have three different keys for f(*%r, **%r): %r' % (label, args, dict(kw), keys))
+                want = ('g' if which == 'g' else 'f',) + echo_result(args, kw, set())
+                try:
+                    got = fns[which](*args, **dict(kw))
+                except Exception as exc:
+                    raise Violation('C16/stacked/raised/%s' % type(exc).__name__, '%s: %s(*%r, **%r) raised %r after calls %r' % (label, which, args, dict(kw), exc, sorted(seen)))
+                if got != want:
+                    raise Violation('C16/stacked/wrong-result', '%s: %s(*%r, **%r) returned %r, the function returns %r (earlier calls %r)' % (label, which, args, dict(kw), got, want, sorted(seen)))
+                seen.add((which, idx))
+            both = len({w for w, i in seen}) >= 2 and any(('outer', i) in seen and ('inner', i) in seen for _, i in seen)
+            return {'nontrivial': both, 'classes': [label, 'holder=' + case['holder']]}
+        finally:
+            holder.close()
+            env.scratch.drop(path)
+
+
+SUBCHECKS = [KeyPairs(), Wrappers(), SignaturePairs(), StackedWrappers()]
 SUBCHECKS.append(FuzzCampaign('c16', SUBCHECKS[2], runs_quick=3000, runs_thorough=150000))
